@@ -122,6 +122,11 @@ class MySeq(collections.abc.Sequence):
     def __len__(self):
         return len(self._d)
 
+QAliasList = typing.TypeAliasType("QAliasList", list[int])
+QAliasInt = typing.TypeAliasType("QAliasInt", int)
+QAliasDict = typing.TypeAliasType("QAliasDict", dict[str, int])
+QNewInt = typing.NewType("QNewInt", int)
+QNewDC = typing.NewType("QNewDC", DC)
 T = typing.TypeVar("T")
 TBound = typing.TypeVar("TBound", bound=int)
 TCons = typing.TypeVar("TCons", str, int)
@@ -318,6 +323,11 @@ SPECIAL = [
     ("typing.Final[typing.Literal[1]]", ["final"]),
     ("typing.ClassVar[typing.Literal[1]]", ["classvar"]), ("typing.ClassVar[typing.Literal[1, 2]]", ["classvar"]),
     ("typing.Final[typing.Literal[1, None]]", ["final"]),
+    # a qualifier around an alias / NewType (two different peeling steps in one annotation)
+    ("typing.ClassVar[QAliasList]", ["classvar"]), ("typing.Final[QAliasList]", ["final"]),
+    ("typing.ClassVar[QAliasInt]", ["classvar"]), ("typing.ClassVar[QAliasDict]", ["classvar"]),
+    ("typing.ClassVar[QNewInt]", ["classvar"]), ("typing.Final[QNewInt]", ["final"]), ("typing.ClassVar[QNewDC]", ["classvar"]),
+    ("tuple[()]", ["empty-subscript"]), ("typing.Tuple[()]", ["empty-subscript"]),
     ("typing.ClassVar[typing.Optional[int]]", ["classvar"]), ("typing.Final[typing.Optional[int]]", ["final"]),
     ("T", ["typevar"]), ("TBound", ["typevar"]), ("TCons", ["typevar"]),
     ("typing.Callable", ["callable-form"]), ("cabc.Callable", ["callable-form"]),
